@@ -1,9 +1,9 @@
 #!/bin/bash
 # tools/run_all.sh quick|thorough [ids...] : runs the registered checks one after the other, prints one summary line each
 tier="${1:-quick}"; shift
-ids="$@"
-[ -z "$ids" ] && ids=$(python3 -c "import json;print(' '.join(c['property_id'] for c in json.load(open('/verif/MANIFEST.json'))['checks']))")
-cd /verif
+ids="$@"; cd "$(dirname "$0")/.."
+[ -z "$ids" ] && ids=$(python3 -c "import json;print(' '.join(c['property_id'] for c in json.load(open('MANIFEST.json'))['checks']))")
+cd "$(dirname "$0")/.."
 for c in $ids; do
   s=$(date +%s)
   out=$(./run.sh $c $tier 2>&1); rc=$?
